@@ -124,7 +124,8 @@ func childMain(path string) int {
 		if progress != nil {
 			progress.WriteAt([]byte(fmt.Sprintf("%08d", i)), 0)
 		}
-		out.Outs[i] = render(c.Query, c.Input.X, opts...)
+		// quoted to ASCII: error texts may hold invalid UTF-8, which JSON would replace
+		out.Outs[i] = strconv.QuoteToASCII(render(c.Query, c.Input.X, opts...))
 	}
 	ob, err := json.Marshal(out)
 	if err == nil {
@@ -296,6 +297,11 @@ func (w *ambWorld) spawn(am ambient, bf batchFile) ([]string, error) {
 	}
 	if len(bo.Outs) != len(bf.Cases) {
 		return nil, fmt.Errorf("child %s answered %d of %d cases", am.name, len(bo.Outs), len(bf.Cases))
+	}
+	for i, q := range bo.Outs {
+		if bo.Outs[i], err = strconv.Unquote(q); err != nil {
+			return nil, fmt.Errorf("child %s: answer %d: %v", am.name, i, err)
+		}
 	}
 	return bo.Outs, nil
 }
